@@ -41,6 +41,9 @@ func checkC15(c *Ctx) {
 	c15Err(c)
 	c15Create(c)
 	c15PathChain(c)
+	c15SpecialNamesFolded(c)
+	c15ZipDirEntries(c)
+	c15SubmoduleMarking(c)
 	c.expect("unzip.mutation-gated", 3)
 	c.expect("checker.gate", 12)
 	c.expect("creation.open-flags", 1)
@@ -350,7 +353,7 @@ func c15Checker(c *Ctx, f *Fn, isZip bool) {
 	gates := []gateSpec{
 		{"clean-path", atomEqCallIn(f, info, "path.Clean"), true, "a name that is not path.Clean'ed (.., ./, //) must be rejected"},
 		{"check-file-path", atomErrVar(info, errVarOf("mod/module.CheckFilePath")), true, "module.CheckFilePath must accept the name"},
-		{"local-module", atomEqConst(info, "cue.mod/local-module.cue", true), true, "cue.mod/local-module.cue is never part of a module"},
+		{"local-module", atomEqOrFoldConst(info, "cue.mod/local-module.cue"), true, "cue.mod/local-module.cue is never part of a module"},
 		{"collision", atomErrVar(info, errVarOf(mz+"collisionChecker.check")), true, "case-fold / file-vs-directory collisions must be rejected"},
 		{"module-cue-case", c15ModuleCueCase(info), false, "a case variant of cue.mod/module.cue must be rejected"},
 		{"max-cue-mod", atomOverLimit(info, limit("MaxCUEMod")), false, "cue.mod/module.cue above MaxCUEMod must be rejected"},
@@ -1039,4 +1042,284 @@ func c15FoldFixpoint(c *Ctx) {
 	})
 	c.check("collision.fold-iterated-to-fixpoint", f.Name, f.Decl.Pos(), ok && wrap,
 		"strToFold must iterate unicode.SimpleFold in an inner loop until it wraps around (minimum of the fold orbit); a single step gives colliding names different keys")
+}
+
+// atomEqOrFoldConst: `x == "val"` or `strings.EqualFold(x, "val")`; equality is the rejecting outcome.
+func atomEqOrFoldConst(info *types.Info, val string) atomMatcher {
+	eq := atomEqConst(info, val, true)
+	return func(e ast.Expr) (bool, bool) {
+		if ok, bad := eq(e); ok {
+			return ok, bad
+		}
+		if call, ok := e.(*ast.CallExpr); ok && calleeName(info, call) == "strings.EqualFold" && len(call.Args) == 2 {
+			for _, a := range call.Args {
+				if v, ok := constString(info, a); ok && v == val {
+					return true, true
+				}
+			}
+		}
+		return false, false
+	}
+}
+
+// c15SpecialNamesFolded: the files with a special meaning inside cue.mod are
+// recognised by name in checkFiles and CheckZip. On a case-insensitive file
+// system a case variant of the name *is* that file, which is why the
+// module.cue rule uses strings.EqualFold. A sibling name that is matched with
+// `==` alone lets `cue.mod/Local-Module.cue` through Create, CheckZip and
+// Unzip.
+func c15SpecialNamesFolded(c *Ctx) {
+	const rule = "names.special-cue-mod-names-folded"
+	n := 0
+	for _, fname := range []string{"checkFiles", "CheckZip"} {
+		f := c.fn("mod/modzip", fname)
+		info := f.Info()
+		// constants "cue.mod/X" (or X compared against the part after cue.mod/) compared by equality
+		eqs := map[string]token.Pos{}
+		folds := map[string]bool{}
+		ast.Inspect(f.Body, func(x ast.Node) bool {
+			switch e := x.(type) {
+			case *ast.BinaryExpr:
+				if e.Op != token.EQL && e.Op != token.NEQ {
+					return true
+				}
+				for _, s := range []ast.Expr{e.X, e.Y} {
+					if v, ok := constString(info, s); ok && strings.HasPrefix(v, "cue.mod/") {
+						if _, seen := eqs[v]; !seen {
+							eqs[v] = e.Pos()
+						}
+					}
+				}
+			case *ast.CallExpr:
+				if calleeName(info, e) == "strings.EqualFold" && len(e.Args) == 2 {
+					for _, s := range e.Args {
+						if v, ok := constString(info, s); ok {
+							folds[strings.TrimPrefix(v, "cue.mod/")] = true
+							if _, seen := eqs[v]; !seen && strings.HasPrefix(v, "cue.mod/") {
+								eqs[v] = e.Pos()
+							}
+						}
+					}
+				}
+			}
+			return true
+		})
+		var names []string
+		for v := range eqs {
+			names = append(names, v)
+		}
+		sort.Strings(names)
+		for _, v := range names {
+			n++
+			c.check(rule, f.Name+"/"+v, eqs[v], folds[strings.TrimPrefix(v, "cue.mod/")],
+				fmt.Sprintf("%s recognises %q by `==`; the function must also test the name with strings.EqualFold (as it does for cue.mod/module.cue): on a case-insensitive file system a case variant is the same file, and the rule this name carries (never published, never extracted) is bypassed", fname, v))
+		}
+	}
+	c.expect(rule, 3)
+}
+
+// c15ZipDirEntries: CheckZip strips the trailing slash of a directory entry
+// and keeps the fact in isDir. Two conclusions drawn later from the stripped
+// name need it: (1) the entry recorded as the module file (modFile = zf) must
+// be a file — a directory entry `cue.mod/module.cue/` is not a module file,
+// and checkFiles/CheckDir report such a tree as having none; (2) "the name has
+// no slash after cue.mod" means "cue.mod is not a directory" only for a file
+// entry — the directory entry `cue.mod/` is what every zip tool writes, and
+// checkFiles/CheckDir accept the same tree.
+func c15ZipDirEntries(c *Ctx) {
+	f := c.fn("mod/modzip", "CheckZip")
+	g := c.graph(f)
+	info := f.Info()
+	// isDir: the variable defined from strings.HasSuffix(name, "/")
+	var isDir types.Object
+	ast.Inspect(f.Body, func(x ast.Node) bool {
+		as, ok := x.(*ast.AssignStmt)
+		if !ok || as.Tok != token.DEFINE || len(as.Lhs) != 1 || len(as.Rhs) != 1 {
+			return true
+		}
+		if call, ok := ast.Unparen(as.Rhs[0]).(*ast.CallExpr); ok && calleeName(info, call) == "strings.HasSuffix" && len(call.Args) == 2 {
+			if v, ok := constString(info, call.Args[1]); ok && v == "/" {
+				isDir = identObj(info, as.Lhs[0])
+			}
+		}
+		return true
+	})
+	if isDir == nil {
+		c.broken("anchor: CheckZip no longer derives a directory flag from strings.HasSuffix(name, \"/\")")
+	}
+	head, body, _ := g.rangeLoop(func(rs *ast.RangeStmt) bool { return strings.HasSuffix(exprString(rs.X), ".File") })
+	if head < 0 {
+		c.broken("anchor: CheckZip no longer ranges over z.File")
+	}
+	barrier := map[int]bool{head: true}
+	dirAtom := func(e ast.Expr) (bool, bool) {
+		if id, ok := e.(*ast.Ident); ok && info.ObjectOf(id) == isDir {
+			return true, true
+		}
+		// the graph shows single-definition boolean locals by their definition
+		if call, ok := e.(*ast.CallExpr); ok && calleeName(info, call) == "strings.HasSuffix" && len(call.Args) == 2 {
+			if v, ok := constString(info, call.Args[1]); ok && v == "/" {
+				return true, true
+			}
+		}
+		return false, false
+	}
+	// (1) modFile = zf
+	mod := setOf(g.find(func(n ast.Node) bool {
+		as, ok := n.(*ast.AssignStmt)
+		return ok && len(as.Lhs) == 1 && exprString(as.Lhs[0]) == "modFile" && as.Tok == token.ASSIGN
+	}))
+	if len(mod) == 0 {
+		c.broken("anchor: CheckZip no longer records the module file entry (modFile = zf)")
+	}
+	// reachable from the start of an iteration without crossing an edge on
+	// which the directory flag is known to be false
+	reachNoProof := func(targets map[int]bool) bool {
+		seen := map[int]bool{body: true}
+		work := []int{body}
+		for len(work) > 0 {
+			id := work[len(work)-1]
+			work = work[:len(work)-1]
+			if targets[id] {
+				return true
+			}
+			if barrier[id] && id != body {
+				continue
+			}
+			for _, e := range g.Nodes[id].Succs {
+				if e.Cond != nil {
+					if p := atomOnEdge(e.Cond, e.Truth, dirAtom); p.present && p.good && !p.bad && !p.na {
+						continue
+					}
+				}
+				if !seen[e.To] {
+					seen[e.To] = true
+					work = append(work, e.To)
+				}
+			}
+		}
+		return false
+	}
+	var pos token.Pos
+	for id := range mod {
+		pos = g.pos(id)
+	}
+	c.check("checker.zip-module-file-is-a-file", f.Name, pos, !reachNoProof(mod),
+		"the entry recorded as cue.mod/module.cue must not be a directory entry: on every path to `modFile = zf` the directory flag must have been tested false (a zip with the entry `cue.mod/module.cue/` would pass CheckZip and Unzip without NoModError and extract to a module with no module file, which checkFiles and CheckDir reject)")
+	// (2) the "no slash after cue.mod" rejection
+	var rej []int
+	var ifs []*ast.IfStmt
+	ast.Inspect(f.Body, func(x ast.Node) bool {
+		if is, ok := x.(*ast.IfStmt); ok {
+			ifs = append(ifs, is)
+		}
+		return true
+	})
+	for _, is := range ifs {
+		has := false
+		ast.Inspect(is.Cond, func(x ast.Node) bool {
+			if call, ok := x.(*ast.CallExpr); ok && calleeName(info, call) == "strings.Contains" && len(call.Args) == 2 {
+				if v, ok := constString(info, call.Args[1]); ok && v == "/" {
+					has = true
+				}
+			}
+			return true
+		})
+		if !has {
+			continue
+		}
+		for _, id := range g.find(func(x ast.Node) bool {
+			es, ok := x.(*ast.ExprStmt)
+			if !ok || es.Pos() < is.Body.Pos() || es.End() > is.Body.End() {
+				return false
+			}
+			call, ok := es.X.(*ast.CallExpr)
+			return ok && exprString(call.Fun) == "addError"
+		}) {
+			rej = append(rej, id)
+		}
+	}
+	if len(rej) == 0 {
+		c.broken("anchor: CheckZip no longer rejects a cue.mod entry whose name has no slash (strings.Contains(rest, \"/\"))")
+	}
+	c.check("checker.zip-cue-mod-dir-entry-accepted", f.Name, g.pos(rej[0]), !reachNoProof(setOf(rej)),
+		"`cue.mod is not a directory` may be concluded from the slash-stripped name only for a file entry: on every path to that rejection the directory flag must have been tested false (the directory entry `cue.mod/`, which zip tools write, is rejected otherwise, while checkFiles and CheckDir accept the same tree)")
+}
+
+// c15SubmoduleMarking: checkFiles omits every file below a directory that
+// contains a cue.mod (another module). The directories are collected with
+// splitCUEMod, which reports the *deepest* cue.mod element of a path; a path
+// can contain several (`sub/cue.mod/pkg/x/cue.mod/module.cue`), and CheckDir
+// stops at the outermost. The collection must therefore apply splitCUEMod
+// repeatedly to the prefix it returns.
+func c15SubmoduleMarking(c *Ctx) {
+	const rule = "checker.submodule-marking-iterated"
+	f := c.fn("mod/modzip", "checkFiles")
+	info := f.Info()
+	var mark *ast.AssignStmt
+	ast.Inspect(f.Body, func(x ast.Node) bool {
+		as, ok := x.(*ast.AssignStmt)
+		if !ok || len(as.Lhs) != 1 {
+			return true
+		}
+		if ix, ok := ast.Unparen(as.Lhs[0]).(*ast.IndexExpr); ok && exprString(ix.X) == "haveCUEMod" {
+			mark = as
+		}
+		return true
+	})
+	if mark == nil {
+		c.broken("anchor: checkFiles no longer records directories holding a cue.mod (haveCUEMod[dir] = true)")
+	}
+	// the innermost enclosing loop that is not the range over the file list
+	ok := false
+	var stack []ast.Node
+	ast.Inspect(f.Body, func(x ast.Node) bool {
+		if x == nil {
+			stack = stack[:len(stack)-1]
+			return true
+		}
+		stack = append(stack, x)
+		if x != ast.Node(mark) {
+			return true
+		}
+		for i := len(stack) - 1; i >= 0; i-- {
+			fs, isFor := stack[i].(*ast.ForStmt)
+			if !isFor {
+				continue
+			}
+			// inside the loop: splitCUEMod is called on a variable that the loop reassigns
+			var arg types.Object
+			ast.Inspect(fs, func(y ast.Node) bool {
+				if call, isCall := y.(*ast.CallExpr); isCall && calleeName(info, call) == "mod/modzip.splitCUEMod" && len(call.Args) == 1 {
+					arg = identObj(info, call.Args[0])
+				}
+				return true
+			})
+			if arg == nil {
+				continue
+			}
+			ast.Inspect(fs.Body, func(y ast.Node) bool {
+				if as, isAs := y.(*ast.AssignStmt); isAs && as.Tok == token.ASSIGN {
+					for _, l := range as.Lhs {
+						if identObj(info, l) == arg {
+							ok = true
+						}
+					}
+				}
+				return true
+			})
+			if fs.Post != nil {
+				if as, isAs := fs.Post.(*ast.AssignStmt); isAs {
+					for _, l := range as.Lhs {
+						if identObj(info, l) == arg {
+							ok = true
+						}
+					}
+				}
+			}
+		}
+		return true
+	})
+	c.check(rule, f.Name, mark.Pos(), ok,
+		"splitCUEMod returns the deepest cue.mod element of a path; the collection of submodule directories must re-apply it to the returned prefix (an inner loop that reassigns its argument), or an outer directory holding only deeper cue.mod paths is not marked and its files are published by Create/CheckFiles while CheckDir/CreateFromDir omit the directory")
 }
